@@ -271,7 +271,7 @@ def main():
     text = "\n".join(lines) + "\n"
     old = open(OUT).read() if os.path.exists(OUT) else None
     if old != text:
-        open(OUT, "w").write(text)
+        os.makedirs(os.path.dirname(OUT), exist_ok=True); open(OUT, "w").write(text)
         print("c2imp: rewrote", os.path.normpath(OUT))
     for n in notes:
         print("c2imp: NOT TRANSLATED", n)
